@@ -29,7 +29,7 @@ def main():
                 "design_ref": "DESIGN.md §3 %s" % pid,
             },
             "level_note": mod.LEVEL_NOTE,
-            "technique": mod.TECHNIQUE,
+            "technique": getattr(mod, "TECHNIQUE", "Lean 4 proof over executable model + differential correspondence + by-construction oracle"),
         })
     na = [{"property_id": p, "reason": "check not built yet in this round (model and theorems pending); the technique applies"}
           for p in ALL if p not in READY]
